@@ -131,14 +131,18 @@ PClose(i) ==
   /\ UNCHANGED <<nin, ik, reg, was, rel, fdo, pend, bnd, bp, wire, sent>>
   /\ Answer("pclose", [i |-> i], "ok", {}, <<>>)
 
-(* mpt_notify_wait + mpt_notify_next / dispatch until nothing is left: every listening input with a pending      *)
-(* connection accepts exactly one (new registered input; tokens in the order of the listeners' tokens), every     *)
+(* mpt_notify_wait + mpt_notify_next / dispatch, repeated until nothing is left to do: every listening input       *)
+(* accepts its pending connections, exactly one new registered input each (tokens in the order of the listeners'   *)
+(* tokens, then of the connections; how much an input reads in one go is its own business), every                  *)
 (* input hands on the messages of its own peer and no other's, an input whose peer is gone is removed and released *)
+\* the listeners in the order of their tokens, each as often as it has pending connections
+RECURSIVE Repeat(_)
+Repeat(q) == IF q = <<>> THEN <<>> ELSE [k \in 1..pend[Head(q)] |-> Head(q)] \o Repeat(Tail(q))
 Got == LET S == {i \in reg : Data(ik[i]) /\ wire[i] # <<>>}
            q == SetSeq(S)
        IN [k \in DOMAIN q |-> [i |-> q[k], d |-> wire[q[k]]]]
 Wait ==
-  LET acc  == SetSeq({l \in Listeners : pend[l] > 0})
+  LET acc  == Repeat(SetSeq(Listeners))
       gone == {i \in reg : Data(ik[i]) /\ eof[i]}
       n    == Len(acc)
       T    == (nin + 1)..(nin + n)
@@ -148,7 +152,7 @@ Wait ==
   /\ nin' = nin + n
   /\ ik' = E(ik, "n") /\ eof' = E(eof, FALSE)
   /\ rel' = [x \in 1..(nin + n) |-> IF x \in gone THEN rel[x] + 1 ELSE E(rel, 0)[x]]
-  /\ pend' = [x \in 1..(nin + n) |-> IF x \in T THEN 0 ELSE IF x \in Listeners /\ pend[x] > 0 THEN pend[x] - 1 ELSE pend[x]]
+  /\ pend' = [x \in 1..(nin + n) |-> IF x \in T \/ x \in Listeners THEN 0 ELSE pend[x]]
   /\ wire' = [x \in 1..(nin + n) |-> <<>>]
   /\ reg' = (reg \ gone) \cup T /\ was' = was \cup T /\ fdo' = (fdo \ gone) \cup T
   /\ UNCHANGED <<bnd, bp, sent>>
